@@ -281,6 +281,15 @@ def main(replay=None):
         cases = corpus + table_cases() + (gen_cases(ck.rng, 250, 260, 40) if quick else gen_cases(ck.rng, 3000, 2500, 400))
     found = evaluate(ck, hb, cases, stats)
     concrete = False
+    # many monomials fail together when a table entry changes: report the first few per rule
+    seen = {}; kept = []
+    for v in found:
+        key = v[0].split(":")[0] if v[0].startswith("rule ") else None
+        if key:
+            seen[key] = seen.get(key, 0) + 1
+            if seen[key] > 4: continue
+        kept.append(v)
+    found = kept
     for v in found:
         sig, desc, rep = v[0], v[1], v[2]; fi = v[3] if len(v) > 3 else True
         concrete = concrete or fi
